@@ -24,13 +24,17 @@ class KGTimerHandler:
 def _call_periodic(loop: asyncio.BaseEventLoop, name, interval, callback):
     start = loop.time()
 
-    def run(handle, fn=callback):
+    def run(handle, n=1, fn=callback):
+        # n: the interval boundary (start + n * interval) this tick serves
         r = fn()
         if r and handle.delegate is not None:
             if interval == 0:
                 handle.delegate = loop.call_soon(run, handle)
             else:
-                handle.delegate = loop.call_later(interval - ((loop.time() - start) % interval), run, handle)
+                # next boundary after the one served and after now: the loop may dispatch a timer within its clock
+                # resolution before the deadline, where the elapsed time alone selects the same boundary again
+                n = max(n, int((loop.time() - start) // interval)) + 1
+                handle.delegate = loop.call_at(start + n * interval, run, handle, n)
         else:
             handle.cancel()
 
@@ -38,7 +42,7 @@ def _call_periodic(loop: asyncio.BaseEventLoop, name, interval, callback):
     if interval == 0:
         periodic.delegate = loop.call_soon(run, periodic)
     else:
-        periodic.delegate = loop.call_at(start + interval, run, periodic)
+        periodic.delegate = loop.call_at(start + interval, run, periodic, 1)
 
     return periodic
 
